@@ -73,8 +73,12 @@ func (f *Func) Init(raw string) error {
 	if f.Complete, err = url.QueryUnescape(raw); err != nil {
 		return fmt.Errorf("bad function reference: %w", err)
 	}
-	// Update the index in the unescaped string.
-	endPkg += len(f.Complete) - len(raw)
+	// Update the index in the unescaped string: each escape sequence before the
+	// index shrinks by two bytes. Escapes after it (which the runtime does not
+	// generate) must not move it.
+	if endPkg > 0 {
+		endPkg -= 2 * strings.Count(raw[:endPkg], "%")
+	}
 	if endPkg != -1 {
 		f.ImportPath = f.Complete[:endPkg]
 	}
